@@ -19,10 +19,12 @@ META = {
     "design_ref": "DESIGN.md section 4 C03",
 }
 
-NS = [1, 2, 3, 4, 7, 100]
+NS = [1, 2, 3, 4, 7, 100, 0]
 SRC = os.path.join(V.VERIF, "harness/C03/impl.cc")
 OPNAME = {"B": "beginResize", "A": "add", "D": "markAsDeleted", "E": "endResize", "R": "renumberLocal", "X": "exists", "T": "at",
-          "G": "operator[]", "S": "size", "Q": "seqNo", "M": "state", "I": "iterate", "V": "reverse", "W": "reverse-sized"}
+          "G": "operator[]", "S": "size", "Q": "seqNo", "M": "state", "I": "iterate", "V": "reverse", "W": "reverse-sized",
+          "a": "add(global)", "U": "setLocal", "Z": "set-equality", "K": "pair-comparison", "Y": "lookup-operator[]", "J": "lookup-iterate",
+          "C": "copy"}
 INT_MIN, INT_MAX = -2**31, 2**31 - 1
 
 
@@ -33,6 +35,7 @@ class Sim:
     def __init__(self, nd=False):
         self.rz = False; self.set = []; self.new = []; self.ops = []; self.ctr = 0
         self.nd = nd            # mirror the NDEBUG build: wrong-state calls are executed, not rejected
+        self.variant = ""       # "" : int / ParallelLocalIndex<Attr>;  "L": long long / LocalIndex
 
     def begin(self):
         self.ops.append("B")
@@ -43,8 +46,39 @@ class Sim:
             loc = self.ctr; self.ctr += 1
         if pub is None:
             pub = (g + attr) % 2
+        if self.variant == "L":
+            attr, pub = 0, 0
         self.ops.append("A:%d:%d:%d:%d" % (g, loc, attr, pub))
         if self.rz or self.nd: self.new.append([g, loc, attr, pub, False])
+
+    def add_default(self, g):
+        """add(global): default-constructed local index (local 0, attribute 0, not public)"""
+        self.ops.append("a:%d" % g)
+        if self.rz or self.nd: self.new.append([g, 0, 0, 0, False])
+
+    def setlocal(self, g, l):
+        self.ops.append("U:%d:%d" % (g, l))
+        for p in self.set:
+            if p[0] == g:
+                p[1] = l; break
+
+    def extras(self, rng):
+        """audit round: the other public access paths (copy, lookup-set forwarding, comparisons, set equality, write through at())"""
+        o = self.ops
+        n = len(self.set)
+        o.append(rng.choice(["C", "J", "C", "J"]))
+        if n:
+            g = rng.choice(self.set)[0]
+            o.append("Y:%d" % g)
+            i, j = rng.randrange(n), rng.randrange(n)
+            gg = rng.choice([self.set[i][0], self.set[j][0], self.set[i][0] + 1 if self.set[i][0] < INT_MAX else self.set[i][0]])
+            o.append("K:%d:%d:%d" % (i, j, gg))
+        keys = [(p[0], p[2]) for p in self.set]
+        if len(set(keys)) == len(keys):                  # rebuilt copy keeps the order only for distinct keys (std::sort)
+            ws = [0, 1, 4, 5, 6] if self.variant == "L" else [0, 1, 2, 3, 4, 5, 6]
+            if self.set and self.set[-1][0] >= INT_MAX - 1: ws.remove(4)
+            if self.set and self.set[-1][2] >= 8 and 2 in ws: ws.remove(2)
+            o.append("Z:0"); o.append("Z:%d" % rng.choice(ws))
 
     def delete(self, k):
         self.ops.append("D:%d" % k)
@@ -95,7 +129,7 @@ class Sim:
                 o.append("W:%d:%d" % (sz, rng.randrange(sz)))
 
     def line(self, n, chk):
-        return "%d %d %s" % (n, chk, " ".join(self.ops))
+        return "%d%s %d %s" % (n, self.variant, chk, " ".join(self.ops))
 
 
 KEYS = [(g, a) for g in (3, 5, 6) for a in (0, 1)]
@@ -124,7 +158,12 @@ def gen_exhaustive(ctx, cases):
                     s.end(); s.probes()
                     if cnt % 5 == 0:
                         s.renumber(); s.probes()
-                    cases.append(s.line(NS[cnt % 4], 1))
+                    if cnt % 3 == 0:
+                        import random as _r
+                        rr = _r.Random(cnt); s.extras(rr)
+                        if s.set and cnt % 6 == 0:
+                            s.setlocal(rr.choice(s.set)[0], rr.randrange(9)); s.probes()
+                    cases.append(s.line(NS[cnt % 7], 1))
                     cnt += 1
     return cnt
 
@@ -141,6 +180,8 @@ def gen_random(ctx, rng, chk, inject):
     else:
         pool = [rng.randrange(-10**6, 10**6) for _ in range(60)]
     nattr = rng.choice([1, 1, 2, 3])
+    if rng.random() < 0.2:
+        s.variant = "L"; nattr = 1                       # long long globals, Dune::LocalIndex, generic comparator
     distinct_globals = rng.random() < 0.6
     rounds = rng.randrange(1, 7)
     small = rng.random() < 0.35                          # keep the set near sizes 0..3
@@ -181,13 +222,20 @@ def gen_random(ctx, rng, chk, inject):
                     if (g, a) in s.keys_in_batch(): continue
                     if distinct_globals and (any(p[0] == g for p in s.new) or any(p[0] == g and not p[4] for p in s.set)): continue
                     loc = rng.randrange(0, 60) if rng.random() < 0.3 else None
-                    s.add(g, a, loc=loc, pub=rng.randrange(2)); break
+                    if a == 0 and rng.random() < 0.12: s.add_default(g)
+                    else: s.add(g, a, loc=loc, pub=rng.randrange(2))
+                    break
             wrong()
         if rng.random() < 0.15:
             s.probes(rng, full=False)                    # lookups while in RESIZE state (deleted flags visible)
         s.end()
         wrong()
         s.probes(rng)
+        if rng.random() < 0.7:
+            s.extras(rng)
+        if rng.random() < 0.3:
+            g = rng.choice(s.set)[0] if s.set and rng.random() < 0.8 else rng.choice(pool)
+            s.setlocal(g, rng.randrange(0, 70)); s.probes(rng)
         if rng.random() < 0.4:
             s.renumber(); s.probes(rng)
     return s.line(rng.choice(NS), chk)
@@ -240,7 +288,7 @@ def judge(case, impl, spec):
         if a != b:
             k = op[0]
             sig = "C03:%s" % OPNAME.get(k, k)
-            if k in "XTGV":
+            if k in "XTGVYU":
                 sig += ":" + sizeclass(size_before(ops, so, i))
             if b == "EXC InvalidIndexSetState" or a == "EXC InvalidIndexSetState":
                 sig += ":state-check"
